@@ -74,16 +74,59 @@ pub fn loops_seen() -> usize {
     LOOPS.load(std::sync::atomic::Ordering::Relaxed)
 }
 
+/// Loads run on ONE persistent worker thread (as a service that loads its rule set would), so that
+/// whatever a loader keeps per thread carries over from rule to rule; a call that does not return
+/// abandons the worker and the next call starts a new one.  `fresh`: a thread of its own (reloads).
+type Job = Box<dyn FnOnce() + Send + 'static>;
+static LOADER: std::sync::Mutex<Option<std::sync::mpsc::Sender<Job>>> = std::sync::Mutex::new(None);
+fn submit(job: Job) {
+    let mut g = LOADER.lock().unwrap_or_else(|e| e.into_inner());
+    let job = match g.as_ref() {
+        Some(tx) => match tx.send(job) {
+            Ok(()) => return,
+            Err(e) => e.0,
+        },
+        None => job,
+    };
+    let (tx, rx) = std::sync::mpsc::channel::<Job>();
+    std::thread::spawn(move || {
+        for j in rx {
+            j();
+        }
+    });
+    let _ = tx.send(job);
+    *g = Some(tx);
+}
+fn abandon_loader() {
+    *LOADER.lock().unwrap_or_else(|e| e.into_inner()) = None;
+}
+
 fn watchdog<F>(f: F) -> Loaded
 where
     F: FnOnce() -> tau_engine_result::R + Send + 'static,
 {
+    watchdog_on(f, false)
+}
+
+fn watchdog_on<F>(f: F, fresh: bool) -> Loaded
+where
+    F: FnOnce() -> tau_engine_result::R + Send + 'static,
+{
     let (tx, rx) = std::sync::mpsc::channel();
-    std::thread::spawn(move || {
+    let job = move || {
         let r = guarded(f);
         let _ = tx.send(r);
-    });
-    match rx.recv_timeout(LOAD_TIMEOUT) {
+    };
+    if fresh {
+        std::thread::spawn(job);
+    } else {
+        submit(Box::new(job));
+    }
+    let r = rx.recv_timeout(LOAD_TIMEOUT);
+    if r.is_err() && !fresh {
+        abandon_loader();
+    }
+    match r {
         Ok(Ok(Ok(r))) => Loaded::Ok(r),
         Ok(Ok(Err(e))) => Loaded::Err(e),
         Ok(Err(())) => Loaded::Panic,
@@ -124,6 +167,14 @@ pub fn load_text(text: &str) -> Loaded {
 }
 pub fn load_value(v: Y) -> Loaded {
     watchdog(move || Rule::from_value(v).map_err(|e| format!("{}", e)))
+}
+/// the same on a thread of their own (a reload happens "elsewhere")
+pub fn load_text_fresh(text: &str) -> Loaded {
+    let t = text.to_string();
+    watchdog_on(move || Rule::from_str(&t).map_err(|e| format!("{}", e)), true)
+}
+pub fn load_value_fresh(v: Y) -> Loaded {
+    watchdog_on(move || Rule::from_value(v).map_err(|e| format!("{}", e)), true)
 }
 impl Loaded {
     pub fn tag(&self) -> &'static str {
@@ -811,10 +862,10 @@ pub fn run_life(case_in: &J, out: &mut Out, ic_build: bool) {
                             .unwrap_or_else(|e| format!("err0:{}", e));
                         for via in ["str", "value"] {
                             let re = if via == "str" {
-                                load_text(&text)
+                                load_text_fresh(&text)
                             } else {
                                 match serde_yaml::from_str::<Y>(&text) {
-                                    Ok(v) => load_value(v),
+                                    Ok(v) => load_value_fresh(v),
                                     Err(e) => Loaded::Err(e.to_string()),
                                 }
                             };
